@@ -92,6 +92,10 @@ def call_to_json(thunk):
             return val_to_json(thunk())
     except RecursionError:
         raise
+    except MemoryError:
+        # the worker's address-space limit (kit.drive) stopped an astronomically large
+        # intermediate value: beyond every model bound, not an observation of the code
+        return {"k": "unrep"}
     except Exception as exc:  # noqa: BLE001 - the exception class *is* the observation
         return exc_to_json(exc)
 
